@@ -309,3 +309,20 @@ Example C03_load_nonvacuous :
   fst (op_load empty_world false [LData 0 (c03_ld 97) None None; LData 0 (c03_ld 98) None None; LRef 2 1]) = Ok [0] /\
   wf_world_b (snd (op_load empty_world false [LData 0 (c03_ld 97) None None; LData 0 (c03_ld 98) None None; LRef 2 1])) = true.
 Proof. vm_compute. repeat split. Qed.
+
+(* ====================================================================================== *)
+(* from_dict at the level of the whole call.  C03_from_dict_item_refused speaks about ONE item in an arbitrary
+   state; for the first item of a public call its hypothesis (the parent already has a child with that id)
+   cannot hold, because Node.from_dict asserts that the parent has no children.  The public-call statement:
+   the first item and any later item of the list carry one data_id, everything in between succeeded -> the
+   whole call is refused with UniqueConstraintError and every tree is exactly as before (fix D48). *)
+From NT Require Import RefusalMore.
+
+Theorem C03_from_dict_duplicate_refused : forall w ti p x mid d e ch rest t r w2 id,
+  WFw w -> get_tree w ti = Some t -> children_of p (forest_of t) = Some [] ->
+  from_dict_items ti p (x :: mid) w = (Ok r, w2) ->
+  item_did t x = Some id -> (match e with Some y => Some y | None => calc_id (calc t) d end) = Some id ->
+  fst (step w (OFromDict ti p (x :: mid ++ DI d e ch :: rest))) = Err EUnique /\
+  trees (snd (step w (OFromDict ti p (x :: mid ++ DI d e ch :: rest)))) = trees w.
+Proof. exact from_dict_duplicate_refused. Qed.
+Print Assumptions C03_from_dict_duplicate_refused.
